@@ -941,11 +941,15 @@ def rule_pipeline_simulation(ctx, R: str, title: str = None):
   wonly = tables.construct(ctx, common.OPCFG, weight_tensor_config=tables.tensor_config(ctx, num_bits=8), compute_precision=CP['FLOAT'], explicit_dequantize=True)
   reg = tables.registry(ctx)
   CFG = {'srq': srq, 'drq': drq, 'wonly': wonly}
-  KIND = {'fc': 'FULLY_CONNECTED', 'abs': 'CUSTOM', 'sm': 'SOFTMAX'}
+  KIND = {'fc': 'FULLY_CONNECTED', 'abs': 'CUSTOM', 'sm': 'SOFTMAX', 'cat': 'CONCATENATION', 'add': 'ADD', 'rs': 'RESHAPE'}
+  KINDS = list(KIND)
   # models: tensors (name, is_const), ops (label, kind, inputs, outputs), graph inputs, outputs
   M1 = ([('x', 0), ('a', 0), ('w', 1), ('h', 0), ('out', 0)], [('abs1', 'abs', [0], [1]), ('fc', 'fc', [1, 2], [3]), ('abs2', 'abs', [3], [4])], [0], [4])
   M2 = ([('x', 0), ('w1', 1), ('h', 0), ('w2', 1), ('out', 0)], [('fc1', 'fc', [0, 1], [2]), ('fc2', 'fc', [2, 3], [4])], [0], [4])
   M3 = ([('x', 0), ('w1', 1), ('h', 0), ('w2', 1), ('o1', 0), ('o2', 0)], [('fc1', 'fc', [0, 1], [2]), ('fc2', 'fc', [2, 3], [4]), ('abs', 'abs', [2], [5])], [0], [4, 5, 2])
+  M4 = ([('x', 0), ('s', 0), ('w', 1), ('out', 0)], [('sm', 'sm', [0], [1]), ('fc', 'fc', [1, 2], [3])], [0], [3])
+  M5 = ([('x', 0), ('z', 0), ('c', 1), ('out', 0)], [('cat', 'cat', [0, 0, 1, 2], [3])], [0, 1], [3])
+  M6 = ([('x', 0), ('y', 0), ('out', 0)], [('add', 'add', [0, 0], [1]), ('rs', 'rs', [1], [2])], [0], [2])
   # rule lists: (regex, operator kind or '*' / 'INPUT' / 'OUTPUT', mode)
   cases = [
       ('M1 FC static', M1, [('.*', 'fc', 'srq')]),
@@ -953,6 +957,9 @@ def rule_pipeline_simulation(ctx, R: str, title: str = None):
       ('M1 FC weight-only', M1, [('.*', 'fc', 'wonly')]),
       ('M1 FC static + OUTPUT static', M1, [('.*', 'fc', 'srq'), ('.*', 'OUTPUT', 'srq')]),
       ('M1 FC static + INPUT static', M1, [('.*', 'fc', 'srq'), ('.*', 'INPUT', 'srq')]),
+      ('M1 a * rule whose regex names the graph output tensor (produced by an unknown operator)', M1, [('out;', '*', 'srq')]),
+      ('M2 a * rule whose regex names the graph output tensor: selects the FC producing it, not the OUTPUT operator', M2, [('out;', '*', 'srq')]),
+      ('M2 a * rule whose regex names the graph input tensor: selects the INPUT operator only', M2, [('^x;', '*', 'srq')]),
       ('M2 both FC static', M2, [('.*', 'fc', 'srq')]),
       ('M2 first FC static only', M2, [('h;', 'fc', 'srq')]),
       ('M2 second FC static only', M2, [('out;', 'fc', 'srq')]),
@@ -962,6 +969,12 @@ def rule_pipeline_simulation(ctx, R: str, title: str = None):
       ('M3 first FC static only', M3, [('h;', 'fc', 'srq')]),
       ('M3 second FC weight-only, first static', M3, [('h;', 'fc', 'srq'), ('o1;', 'fc', 'wonly')]),
       ('M3 nothing selected', M3, [('nomatch', 'fc', 'srq')]),
+      ('M4 softmax (fixed output range) feeding a FC, everything static', M4, [('.*', '*', 'srq')]),
+      ('M4 softmax static only', M4, [('.*', 'sm', 'srq')]),
+      ('M5 concatenation of a repeated runtime operand and a constant, everything static', M5, [('.*', '*', 'srq')]),
+      ('M5 concatenation static only', M5, [('.*', 'cat', 'srq')]),
+      ('M6 add(x, x) then reshape (same-scale op), everything static', M6, [('.*', '*', 'srq')]),
+      ('M6 reshape static only', M6, [('.*', 'rs', 'srq')]),
   ]
   F32, I8 = TT['FLOAT32'], TT['INT8']
   tval = lambda t: t.value if isinstance(t, Ext) else t
@@ -974,11 +987,11 @@ def rule_pipeline_simulation(ctx, R: str, title: str = None):
       # like the converter: every tensor has its own buffer (empty for runtime tensors); buffer 0 is the reserved empty one
       ts = [Obj('x:TensorT', {'name': n.encode(), 'buffer': i + 1, 'type': F32, 'shape': [2, 2] if c else [1, 2], 'quantization': None})
             for i, (n, c) in enumerate(tensors)]
-      os_ = [Obj('x:OperatorT', {'label': lab, 'opcodeIndex': ['fc', 'abs', 'sm'].index(k), 'inputs': list(i), 'outputs': list(o), 'builtinOptions': None}) for lab, k, i, o in ops]
+      os_ = [Obj('x:OperatorT', {'label': lab, 'opcodeIndex': KINDS.index(k), 'inputs': list(i), 'outputs': list(o), 'builtinOptions': None}) for lab, k, i, o in ops]
       sg = Obj('x:SubGraphT', {'tensors': ts, 'operators': os_, 'inputs': list(gin), 'outputs': list(gout), 'name': b'main'})
       bufs = [Obj('x:BufferT', {'data': None, 'offset': 0, 'size': 0})] + [Obj('x:BufferT', {'data': (f'float-bytes-of-{n}' if c else None), 'offset': 0, 'size': 0}) for n, c in tensors]
       return Obj('x:ModelT', {'subgraphs': [sg], 'buffers': bufs, 'signatureDefs': None,
-                              'operatorCodes': [Obj('x:OperatorCodeT', {'builtinCode': code(KIND[k])}) for k in ('fc', 'abs', 'sm')]})
+                              'operatorCodes': [Obj('x:OperatorCodeT', {'builtinCode': code(KIND[k])}) for k in KINDS]})
     cur = {'k': 0}
 
     def content(k):
@@ -1021,6 +1034,8 @@ def rule_pipeline_simulation(ctx, R: str, title: str = None):
     store = {}
     for rx, kind, mode in rules:
       opn = OP[KIND[kind]] if kind in KIND else OP[kind if kind != '*' else 'ALL_SUPPORTED']
+      if opn.name == 'CUSTOM':
+        continue
       store.setdefault(rx, []).append(c11._recipe(rx, opn, MM, CFG[mode]))  # pylint: disable=protected-access
     rm = Obj('recipe_manager:RecipeManager', {'_scope_configs': store})
     need = any(m == 'srq' for _, _, m in rules)
@@ -1061,15 +1076,17 @@ def rule_pipeline_simulation(ctx, R: str, title: str = None):
       scope = ''.join(names[o] + ';' for o in outs if o != -1) if kind in KIND else ''
       got = None
       for rx, k, md in rules:
-        if k == kind and _re.search(rx, scope):
+        if (k == kind or (k == '*' and kind != 'abs')) and _re.search(rx, scope):
           got = md
       return got
 
     def io_mode(kind, tensor_ids):
-      scope = ''.join(names[o] + ';' for o in tensor_ids)
+      # the scope of an operator is made of its OUTPUT tensor names: the virtual INPUT operator produces the graph inputs,
+      # the virtual OUTPUT operator produces nothing (empty scope)
+      scope = ''.join(names[o] + ';' for o in tensor_ids) if kind == 'INPUT' else ''
       got = None
       for rx, k, md in rules:
-        if k == kind and _re.search(rx, scope):
+        if (k == kind or k == '*') and _re.search(rx, scope):
           got = md
       return got
     ttype = lambda i: tval(T[i].fields['type'])
